@@ -17,3 +17,5 @@ def run_deductive(rep):
     verify.verify_many(rep, items)
     from ..static import frames
     frames.report(rep, classes=["ExponentiatedGradient", "InterpolatedThresholder", "ThresholdOptimizer"], conditions=("F5", "F6"))      # repeating a prediction repeats the pmf: no private state
+    from ..static import frames as _frames
+    _frames.report(rep, table=_frames.CALLABLES, conditions=("F5",))      # a stored predictor keeps no memory of earlier calls (same object refilled in place -> new answer)
